@@ -41,6 +41,25 @@ pub fn drive(tr: &mut Tracer, rng: &mut StdRng, thorough: bool) {
         let neg = rng.gen_bool(0.5);
         group(tr, rng, &core, exp, neg, max_pad);
     }
+    // pairs the crate's == might wrongly identify: equal low 32-bit words, different high words; scale gaps 1..19 and beyond
+    for i in 0..(if thorough { 4000 } else { 800 }) {
+        let k: u32 = if i % 3 == 0 { rng.gen_range(20..40) } else { rng.gen_range(1..=19) };
+        let l = pick_len(rng, 45);
+        let x: BigUint = shaped_digits(rng, l).parse().unwrap();
+        let y = &x * BigUint::from(10u8).pow(k);
+        let nw = y.to_u32_digits().len();
+        let cands = [y.clone(), &y + (BigUint::from(1u8) << (32 * nw)), &y + (BigUint::from(1u8) << (32 * (nw + 1))),
+                     &y + (BigUint::from(rng.gen_range(1..u32::MAX)) << (32 * nw)), &y + 1u8,
+                     BigUint::new(y.to_u32_digits()[..nw.saturating_sub(1).max(1)].to_vec())];
+        let sc = rng.gen_range(-10..=10i64);
+        let neg = rng.gen_bool(0.5);
+        let a = crate::wire::parts_to_json(&if neg { -num_bigint::BigInt::from(x.clone()) } else { num_bigint::BigInt::from(x.clone()) }, sc);
+        for c in cands.iter() {
+            let bb = num_bigint::BigInt::from(c.clone());
+            let b = crate::wire::parts_to_json(&if neg { -bb } else { bb }, sc + k as i64);
+            if i % 2 == 0 { tr.emit(json!({"op": "eq_hash", "a": a, "b": b})); } else { tr.emit(json!({"op": "eq_hash", "a": b, "b": a})); }
+        }
+    }
     // zero with any scale and either construction sign (the wire has no negative zero; -0 is made by the crate)
     tr.emit(json!({"op": "reset"}));
     let mut zs = vec![];
